@@ -21,6 +21,8 @@ RULE = (
 ASSUMPTIONS = ["the client returns exactly the first name=value pair of the Set-Cookie line", "time.time is replaced by a pinned clock; the zone is switched with TZ + tzset inside the worker"]
 
 NAMES = ["a", "A1", "!#$%&'*+-.^_`|~"] + [c + "x" for c in "!#$%&'*+-.^_`|~"] + ["$", "$Version", "~"]
+# cookie names that spell the attributes of a Set-Cookie line (any case): still ordinary cookies
+ATTR_NAMES = ["path", "Path", "PATH", "samesite", "SameSite", "expires", "Expires", "max-age", "Max-Age", "domain", "Domain", "secure", "Secure", "httponly", "HttpOnly", "x-path", "version", "comment"]
 SPECIAL = ['"', "\\", ";", ",", "=", " ", "\t", "\0", "\r", "\n", "\x7f", "\x80", "\xff", "a", "%", ":"]
 SPECIAL8 = ['"', "\\", ";", " ", "=", "\xe9", "a", ","]
 ESC = ["\\", "1", "0", "7", '"', "3"]  # strings that look like the escapes the serialisation itself uses (\\ooo, \\", \\\\)
@@ -37,14 +39,17 @@ def shards(tier, seed):
     if tier == "thorough":
         out += [("two_full", n, i) for n in range(3) for i in range(len(SPECIAL))]
     out.append(("sets",))
+    out.append(("attrnames",))
     out.append(("long",))
     out.append(("reuse",))
     out += [("expiry", z) for z in ZONES]
     return out
 
 
-def emit_cookie_line(iface, setter):
+def emit_cookie_line(iface, setter, created=None):
     mod = __import__("baize.wsgi" if iface == "wsgi" else "baize.asgi", fromlist=["Response"])
+    if created is not None:
+        created()  # e.g. move the clock: the response object may be older than the set_cookie() call
     resp = mod.Response(204)
     setter(resp)
     req = SV.AReq()
@@ -66,12 +71,13 @@ def read_cookies(iface, header):
     return Request(SV.to_scope(req)).cookies
 
 
-def roundtrip(r, name, value, kind):
+def roundtrip(r, name, value, kind, full=False):
     for iface in ("wsgi", "asgi"):
-        w = {"kind": "roundtrip", "iface": iface, "name": name, "value": value}
+        w = {"kind": "roundtrip", "iface": iface, "name": name, "value": value, "full": full}
         r.count("evaluations")
+        kw = {"max_age": 60, "expires": 60, "path": "/p", "domain": "example.com", "secure": True, "httponly": True, "samesite": "strict"} if full else {}
         try:
-            lines, res = emit_cookie_line(iface, lambda resp: resp.set_cookie(name, value))
+            lines, res = emit_cookie_line(iface, lambda resp: resp.set_cookie(name, value, **kw))
         except Exception as e:  # noqa
             r.violation(f"roundtrip:emit-exception:{type(e).__name__}", w, f"{iface} set_cookie({name!r}, {value!r}) raised {e!r:.100}")
             continue
@@ -174,16 +180,21 @@ def expiry(r, zone):
     time.tzset()
     real_time = time.time
     try:
+        clock = [0.0]
+        time.time = lambda: clock[0]
         for now in INSTANTS:
-            time.time = lambda now=now: now
             for iface in ("wsgi", "asgi"):
-                for expires in (None, 0, 1, 3600, 86400):
+                for expires, age in [(e, 0.0) for e in (None, 0, 1, 3600, 86400)] + [(30, 2.5), (30, 3600.0), (0, 86400.0)]:
                     for max_age in (-1, 0, 5):
                         r.count("evaluations")
                         if zone != "UTC" and expires is not None:
                             r.count("distinct_nontrivial")
-                        w = {"kind": "expiry", "iface": iface, "zone": zone, "now": now, "expires": expires, "max_age": max_age}
-                        lines, res = emit_cookie_line(iface, lambda resp: resp.set_cookie("k", "v", expires=expires, max_age=max_age))
+                        w = {"kind": "expiry", "iface": iface, "zone": zone, "now": now, "expires": expires, "max_age": max_age, "response_age": age}
+
+                        def setter(resp):
+                            clock[0] = now  # the handler works for `age` seconds before it sets the cookie
+                            resp.set_cookie("k", "v", expires=expires, max_age=max_age)
+                        lines, res = emit_cookie_line(iface, setter, created=lambda: clock.__setitem__(0, now - age))
                         a = parse_attrs(lines[0])
                         if expires is None:
                             if "expires" in a:
@@ -197,13 +208,14 @@ def expiry(r, zone):
                                 continue
                             want = int(now) + expires
                             if ts != want:
-                                r.violation("expiry:wrong-instant", w, f"zone {zone}, now={now}, expires={expires}: Expires {a['expires']!r} is {ts - want:+d}s off now+expires (as GMT)")
+                                r.violation("expiry:wrong-instant", w, f"zone {zone}, now={now}, expires={expires}, response object created {age}s earlier: Expires {a['expires']!r} is {ts - want:+d}s off now+expires (as GMT)")
                         if max_age > -1:
                             if a.get("max-age") != str(max_age):
                                 r.violation("expiry:max-age", w, f"max_age={max_age} -> {lines[0]!r}")
                         elif "max-age" in a:
                             r.violation("expiry:max-age", w, f"max_age=-1 -> {lines[0]!r}")
                 # delete_cookie
+                clock[0] = now
                 r.count("evaluations")
                 w = {"kind": "delete", "iface": iface, "zone": zone, "now": now}
                 lines, res = emit_cookie_line(iface, lambda resp: resp.delete_cookie("k"))
@@ -253,6 +265,12 @@ def run_shard(desc, tier):
         for cp in range(256):
             roundtrip(r, name, a + chr(cp), "2char-full")
             roundtrip(r, name, chr(cp) + a, "2char-full")
+    elif desc[0] == "attrnames":
+        for name in ATTR_NAMES:
+            for value in ["x", "", "/", "lax", "0", "a b", 'q"r', "v;w", "é"]:
+                roundtrip(r, name, value, "attr-name", full=False)
+                roundtrip(r, name, value, "attr-name", full=True)
+        r.sample({"name": "path", "value": "x", "attributes": "default and all"})
     elif desc[0] == "long":
         for unit in ("é", ";", "a", '"', "\\", " x"):
             for n in (255, 1023, 1024, 1025, 4095, 5000):
